@@ -80,16 +80,31 @@ def agree(codes):
     return s.pop() if len(s) == 1 else 99
 
 
+def maxdev(a, b):
+    """max |a_i - b_i|, NaN as soon as one entry is not finite."""
+    d = [abs(float(p) - float(q)) for p, q in zip(a, b)]
+    return max(d) if all(math.isfinite(x) for x in d) else float("nan")
+
+
 def scalar(a):
     return float(np.asarray(a, dtype=float).ravel()[0])
 
 
 # ------------------------------------------------------------------ replayers (case -> record for the judge)
-def sph_measures(geo, v, r_e=None, ph_e=None, th_e=None):
+def sph_measures(geo, v, expected=None, perturb=None):
+    """expected = (r, phi, theta) from the spec's terms; perturb = name of the expectation that is replaced
+    by 'observed + 1e-6' (negative control of the comparison, independent of what pydrex returns)."""
     x, y, z = (float(c) for c in v)
     with np.errstate(all="ignore"):
         r, ph, th = (scalar(a) for a in geo.to_spherical(x, y, z))
         back = [scalar(a) for a in geo.to_cartesian(ph, th, r)]
+    r_e, ph_e, th_e = expected if expected is not None else (None, None, None)
+    if perturb == "r":
+        r_e = r + 1e-6
+    elif perturb == "phi":
+        ph_e = ph + 1e-6
+    elif perturb == "theta":
+        th_e = th + 1e-6
     scale = max(abs(x), abs(y), abs(z))
     m = dict(
         nf_r=int(not math.isfinite(r)),
@@ -97,7 +112,7 @@ def sph_measures(geo, v, r_e=None, ph_e=None, th_e=None):
         nf_th=int(not math.isfinite(th)),
         azc=az_code(ph),
         thc=colat_code(th),
-        rt=mu(max(abs(b - c) for b, c in zip(back, (x, y, z))) / scale) if all(math.isfinite(b) for b in back) else cap(float("nan")),
+        rt=mu(maxdev(back, (x, y, z)) / scale),
     )
     if r_e is not None:
         m["dr"] = mu((r - r_e) / max(1.0, r_e))
@@ -105,20 +120,12 @@ def sph_measures(geo, v, r_e=None, ph_e=None, th_e=None):
         m["dth"] = mu(th - th_e)
         with np.errstate(all="ignore"):
             fwd = [scalar(a) for a in geo.to_cartesian(ph_e, th_e, r_e)]
-        m["cart"] = mu(max(abs(b - c) for b, c in zip(fwd, (x, y, z))) / scale)
-    return m, dict(v=[x, y, z], got=[r, ph, th])
+        m["cart"] = mu(maxdev(fwd, (x, y, z)) / scale)
+    return m, dict(v=[x, y, z], got=[r, ph, th], expected=[r_e, ph_e, th_e])
 
 
 def replay_sph(geo, c, perturb=None):
-    r_e, ph_e, th_e = ev(c["rT"]), ev(c["phiT"]), ev(c["thetaT"])
-    if perturb == "r":
-        r_e += 1e-6
-    elif perturb == "phi":
-        ph_e += 1e-6
-    elif perturb == "theta":
-        th_e += 1e-6
-    m, info = sph_measures(geo, c["v"], r_e, ph_e, th_e)
-    info["expected"] = [r_e, ph_e, th_e]
+    m, info = sph_measures(geo, c["v"], (ev(c["rT"]), ev(c["phiT"]), ev(c["thetaT"])), perturb)
     return dict(kind="sph", pat=c["pat"], m=m), info
 
 
@@ -145,11 +152,11 @@ def rat_matrix(A):
     return np.array([[e[0] / e[1] for e in row] for row in A], dtype=float)
 
 
-def replay_pole_group(geo, group, wrong_axes=None):
+def replay_pole_group(geo, group, perturb=False):
     """All exact rotations of one (hkl, axes) group in one call (an orientation set) and one by one."""
     hkl, axes = group[0]["hkl"], group[0]["axes"]
     mats = np.array([rat_matrix(c["A"]) for c in group])
-    call_axes = wrong_axes or axes
+    call_axes = axes
     with np.errstate(all="ignore"):
         xs, ys, zs = geo.poles(mats.copy(), ref_axes=call_axes, hkl=list(hkl))
     out = []
@@ -158,6 +165,8 @@ def replay_pole_group(geo, group, wrong_axes=None):
         with np.errstate(all="ignore"):
             one = [scalar(a) for a in geo.poles(mats[i : i + 1].copy(), ref_axes=call_axes, hkl=list(hkl))]
         got = [float(xs[i]), float(ys[i]), float(zs[i])]
+        if perturb:
+            exp[1] = got[1] + 1e-6
         nonfinite = sum(not math.isfinite(g) for g in got + one)
         dev = max(max(abs(g - e), abs(o - e)) for g, o, e in zip(got, one, exp)) if not nonfinite else float("nan")
         unit = abs(math.sqrt(sum(g * g for g in got)) - 1) if not nonfinite else float("nan")
@@ -209,7 +218,7 @@ def replay_lam(geo, cases, perturb_first=False):
             X1, Y1 = (scalar(a) for a in geo.lambert_equal_area(xs[i], ys[i], zs[i]))
         Xe, Ye = ev(c["XT"]), ev(c["YT"])
         if perturb_first and i == 0:
-            Xe += 1e-6
+            Xe = float(Xv[i]) + 1e-6
         m = lam_measures(float(Xv[i]), float(Yv[i]), xs[i], ys[i], zs[i], c["oneMinusAbsZ"][0] / c["oneMinusAbsZ"][1])
         m["nonfinite"] += int(not (math.isfinite(X1) and math.isfinite(Y1)))
         m["dev"] = mu(max(abs(float(Xv[i]) - Xe), abs(float(Yv[i]) - Ye), abs(X1 - Xe), abs(Y1 - Ye)))
@@ -236,10 +245,10 @@ def replay_lamf(geo, c, draws):
 def replay_lift(geo, c, perturb=False):
     x, y, z = ev(c["xT"]), ev(c["yT"]), ev(c["zT"])
     Xe, Ye = c["X"][0] / c["X"][1], c["Y"][0] / c["Y"][1]
-    if perturb:
-        Xe += 1e-6
     with np.errstate(all="ignore"):
         X, Y = (scalar(a) for a in geo.lambert_equal_area(x, y, z))
+    if perturb:
+        Xe = X + 1e-6
     nonfinite = int(not (math.isfinite(X) and math.isfinite(Y)))
     m = dict(nonfinite=nonfinite, inv=mu(max(abs(X - Xe), abs(Y - Ye))), outside=mu(max(0.0, X * X + Y * Y - 1.0)))
     return dict(kind="lift", pole=(c["R2"][0] == 0), m=m), dict(lifted=[x, y, z], got=[X, Y], expected=[Xe, Ye])
@@ -330,21 +339,16 @@ def _dens_worker(c):
     return rec, info
 
 
-def density_sensitivity_controls(c):
-    """Live controls: the order measure must see different data, the sign measure must see a non-axial run."""
-    from pydrex import stats
-
-    d = density_data(c)
-    T = _density(stats, d, c)[2]
-    other = unit_rows(rng_for("control-other").normal(size=d.shape))
-    T_other = _density(stats, other, c)[2]
-    signs = np.where(np.arange(len(d)) % 2 == 0, -1.0, 1.0)
-    T_directional = _density(stats, d, c, axial=False)[2]
-    T_directional_flipped = _density(stats, d * signs[:, None], c, axial=False)[2]
-    good = dict(nonfinite=0, neg=0, outside=0, minpos=int(float(T.min()) > 0), meandev=mu(float(T.mean()) - 1), meandef=mu(max(0.0, 1 - float(T.mean()))), order=0, sign=0)
+def density_measure_controls():
+    """The relational measure must see a 1e-6 difference in one grid value (independent of pydrex)."""
+    a = np.linspace(0.5, 2.0, 121).reshape(11, 11)
+    b = a.copy()
+    b[3, 4] += 1e-6
+    good = dict(nonfinite=0, neg=0, outside=0, minpos=1, meandev=0, meandef=0, order=0, sign=0)
     return [
-        ("order-measure-sees-different-data", dict(kind="dens", axial=True, m=dict(good, order=mu(rel_dev(T, T_other)))), "order"),
-        ("sign-measure-sees-directional-estimate", dict(kind="dens", axial=True, m=dict(good, sign=mu(rel_dev(T_directional, T_directional_flipped)))), "sign"),
+        ("order-measure-sees-1e-6", dict(kind="dens", axial=True, m=dict(good, order=mu(rel_dev(a, b)))), "order"),
+        ("sign-measure-sees-1e-6", dict(kind="dens", axial=True, m=dict(good, sign=mu(rel_dev(a, b)))), "sign"),
+        ("mean-measure-sees-1e-6", dict(kind="dens", axial=True, m=dict(good, meandev=mu(float((a / a.mean()).mean() + 1e-6) - 1.0))), "mean"),
     ]
 
 
@@ -383,7 +387,7 @@ def signature(kind, clause, bad, rec, case):
 def main(tier):
     chk = Check("C20", tier)
     quick = tier != "thorough"
-    gen = run_tlc("Geometry", "Geometry" if quick else "Geometry_thorough", workers=8 if quick else 16, timeout=300 if quick else 900)
+    gen = run_tlc("Geometry", "Geometry" if quick else "Geometry_thorough", workers=8, timeout=300 if quick else 900)
     chk.add_tlc(
         "Geometry" if quick else "Geometry_thorough",
         gen,
@@ -462,7 +466,7 @@ def main(tier):
     for what, clause in (("r", "+radius:value"), ("phi", "+azimuth:value"), ("theta", "+colatitude:value")):
         controls.append((f"perturbed-expected-{what}", replay_sph(geo, c0, perturb=what)[0], clause))
     g0 = groups[((1, 2, 3), "xz")]
-    controls.append(("perturbed-axes-string", replay_pole_group(geo, g0[:6], wrong_axes="zx")[3][0], "+pole:value"))
+    controls.append(("perturbed-expected-pole", replay_pole_group(geo, g0[:6], perturb=True)[3][0], "+pole:value"))
     controls.append(("perturbed-expected-lambert", replay_lam(geo, [c for c in by["lam"] if not c["pole"]][:3], perturb_first=True)[0][0], "+lambert:value"))
     controls.append(("perturbed-expected-lift", replay_lift(geo, next(c for c in by["lift"] if c["R2"][0] != 0), perturb=True)[0], "+lambert:inverse"))
     good_sph = dict(nf_r=0, nf_az=0, nf_th=0, azc=1, thc=1, rt=3, dr=0, daz=1, dth=2, cart=0)
@@ -484,8 +488,7 @@ def main(tier):
         controls.append((f"density-{clause}-over-threshold-rejected", dict(kind="dens", axial=True, m=dict(good_dens, **{k: v})), clause))
     controls.append(("density-mean-below-1-after-clipping-rejected", dict(kind="dens", axial=True, m=dict(good_dens, minpos=0, meandef=5 * 10**6)), "mean"))
     controls.append(("density-sign-not-demanded-when-directional", dict(kind="dens", axial=False, m=dict(good_dens, sign=5 * 10**6)), None))
-    cs = next(c for c in dens if c["kernel"] == "exponential_kamb" and c["axial"] and c["data"] == "cluster" and c["n"] == 130 and c["gridsteps"] == 11)
-    controls += density_sensitivity_controls(cs)
+    controls += density_measure_controls()
     for _, rec, _ in controls:
         records.append(rec)
 
@@ -493,8 +496,8 @@ def main(tier):
     chk.add_tlc("GeometryJudge", jres, f"{len(records)} measure records judged by the laws of Geometry.tla")
     chk.cov["traces_validated_against_impl"] += n_real
     for (name, _, clause), bad in zip(controls, verdicts[n_real:]):
-        if clause is not None and clause.startswith("+"):  # replayed with a perturbed expectation: clause must be among the failures
-            fired = clause[1:] in bad
+        if clause is not None and clause.startswith("+"):  # real case replayed against 'observed + 1e-6': the comparison must fail
+            fired = clause[1:] in bad or clause[1:].partition(":")[0] + ":nan" in bad
         else:  # synthetic record: exactly this verdict
             fired = bad == ([] if clause is None else [clause])
         chk.control(name, fired, f"judge said {bad}")
